@@ -449,4 +449,23 @@ example :
     hst (a.s.hs 3) = some .queued ∧ a.ownedByStream 3 = false ∧ a.susp.lookup 3 = none ∧
     (a.exec (.poll 3)).2.res.isGuard = false ∧ (a.exec (.poll 2)).2.res.isGuard = true := by decide
 
+/-- **Dropping a guard frees the key for exactly the next in line** — public-call level, every reachable API state: when `drop(guard)`
+of a client's guard `h` for key `k` answers `ok`, the specification had `h` as the guard of `k`, and afterwards has no guard for `k`, the
+same FIFO of waiters for `k`, and everything else (all values, all other keys' guards and waiters) unchanged. With
+`C03_poll_served_in_turn`: the first waiter's next poll gets the guard, nobody else's does — no wake-up is lost at this level. -/
+theorem C03_drop_frees_for_next (kind : Kind) (cs : List Call) (h : Nat) (hd : Handle) :
+    let a := cs.foldl (fun a c => (a.exec c).1) (Api.init kind)
+    a.s.hs h = some hd → hd.st = .holding → a.ownedBySusp h = false →
+    (match (a.exec (.drop h)).2.res with | .ok => True | _ => False) →
+    absSpec (a.exec (.drop h)).1.s = { absSpec a.s with held := upd (absSpec a.s).held hd.key none } ∧
+    (absSpec a.s).held hd.key = some h := by
+  intro a hh hst1 hos hok
+  exact drop_releases a (ainv_execs cs _ (ainv_init kind)).inv h hd hh hst1 hos hok
+
+/-- non-vacuity: guard 1 on key 7 with waiter 2 queued; the drop answers `ok` -/
+example :
+    let a := (((Api.init .hashMap).exec (.lock .wait 1 7 .none 100)).1.exec (.lock .wait 2 7 .none 100)).1
+    hst (a.s.hs 1) = some .holding ∧ a.ownedBySusp 1 = false ∧
+    (match (a.exec (.drop 1)).2.res with | .ok => true | _ => false) = true := by decide
+
 end Lockable
